@@ -68,6 +68,29 @@ def inj_missing_iface(files, cfg, level):
     cfg["packages"][MOD + "/p1"]["interfaces"]["DoesNotExist"] = {}
 
 
+def inj_missing_iface_exists_elsewhere(files, cfg, level):
+    # `Gamma` is declared in p2 (configured, all: true) but listed under p1, where it does not exist
+    cfg["packages"][MOD + "/p1"]["interfaces"]["Gamma"] = {}
+    cfg["packages"].setdefault(MOD + "/p2", {"config": {"all": True}})
+
+
+def inj_missing_iface_listed_elsewhere(files, cfg, level):
+    # `Alpha` exists in p1 and is listed there; it is also listed under p3, where it does not exist
+    cfg["packages"].setdefault(MOD + "/p3", {"config": {"all": True}})
+    cfg["packages"][MOD + "/p3"].setdefault("interfaces", {})["Alpha"] = {}
+
+
+def td_lookalike(files, cfg, level):
+    """a wrongly typed value that prints exactly like the conforming value validated just before it"""
+    cfg.setdefault("template-data", {})["unroll-variadic"] = True
+    if level == "cfg":
+        p1 = cfg["packages"][MOD + "/p1"]
+        p1["interfaces"]["Alpha"]["configs"][0].setdefault("template-data", {})["unroll-variadic"] = True
+        p1["interfaces"]["Alpha"]["configs"][1].setdefault("template-data", {})["unroll-variadic"] = "true"
+    else:
+        lvl(cfg, level).setdefault("template-data", {})["unroll-variadic"] = "true"
+
+
 def inj_struct_listed(files, cfg, level):
     cfg["packages"][MOD + "/p1"]["interfaces"]["NotIface"] = {}
 
@@ -224,6 +247,9 @@ def inj_cyclic_overridden(files, cfg, level):
 INVALID = {
     "listed-interface-absent": (["pkg"], inj_missing_iface),
     "listed-interface-is-struct": (["pkg"], inj_struct_listed),
+    "listed-interface-absent-but-declared-in-another-package": (["pkg"], inj_missing_iface_exists_elsewhere),
+    "listed-interface-absent-but-listed-in-another-package": (["pkg"], inj_missing_iface_listed_elsewhere),
+    "template-data-lookalike-wrong-type": (["pkg", "iface", "cfg"], td_lookalike),
     "package-missing-all": (["root"], inj_pkg_missing_all),
     "package-missing-listed": (["root"], inj_pkg_missing_listed),
     "package-missing-foreign-module": (["root"], inj_pkg_missing_plain),
